@@ -323,7 +323,13 @@ func (u *upstream) updateClients(clients map[string]*client) {
 }
 
 func (u *upstream) handleRedirection(req *simpleRequest, resp *RespValue) {
+	// Format: MOVED|ASK <slot> <host:port>
 	err := strings.Split(string(resp.Text), " ")
+	if len(err) < 3 || err[2] == "" {
+		// malformed redirection, hand it over like any other error.
+		req.SetResponse(resp)
+		return
+	}
 	hostAddr := err[2]
 	switch strings.ToLower(err[0]) {
 	case MOVED:
